@@ -66,12 +66,18 @@ def judgeListen (ds : List Bytes) (impl : List (List String)) : List String :=
     let got := cbs.filterMap fun cb => match cb with
       | "ev" :: vs => vs.mapM parseVal
       | _ => none
-    (if first = ["connected"] then [] else ["the connected callback comes first, once"]) ++
-    (if tail = ["returned", "stable"] then [] else [s!"the listener returns without error when signalled and delivered statuses never change (got {tail})"]) ++
-    (if got.length ≠ cbs.length then ["unexpected callback"] else []) ++
+    -- every complaint names the property it belongs to (a status that changes afterwards is both C10 and C17;
+    -- a listener that crashes or never returns is C04 as well)
+    (if first = ["connected"] then [] else ["C10 the connected callback comes first, once"]) ++
+    (if tail.headD "" = "returned" then [] else
+      [s!"C10 the listener stops when signalled and returns without error (got {tail.headD ""})"] ++
+      (if tail.headD "" = "panic" ∨ tail.headD "" = "hung" then ["C04 the listener neither panics nor hangs"] else [])) ++
+    (if tail.getD 1 "" = "stable" then [] else
+      ["C10 a delivered status does not change afterwards", "C17 a delivered status is not affected by later reuse of the receive buffer or by later events"]) ++
+    (if got.length ≠ cbs.length then ["C10 unexpected callback"] else []) ++
     (match matchEvents (ds.map expectEvent) got 0 with
-     | some (n, _) => if n = nerr then [] else [s!"{n} datagrams are not well-formed events: exactly {n} error callbacks (got {nerr})"]
-     | none => ["the events delivered are not the well-formed event datagrams, each once, in arrival order"])
+     | some (n, _) => if n = nerr then [] else [s!"C10 {n} datagrams are not well-formed events: exactly {n} error callbacks (got {nerr})"]
+     | none => ["C10 the events delivered are not the well-formed event datagrams, each once, in arrival order"])
 
 inductive ExpectEntry where
   | must (e : String)
